@@ -33,6 +33,7 @@ Definition dflt := map CB default_dag_rules.
 Definition R (ad : adapter) (rf : bool) (rules : list crule) (v : verdict) (cl : list (nat * arg)) : run :=
   (ad, rf, rules, {| ob_verdict := v; ob_calls := cl |}).
 Definition O (v : verdict) (cl : list (nat * arg)) : obs := {| ob_verdict := v; ob_calls := cl |}.
+Definition M (o : obs) (f : dg) (r : bool) : mobs := {| mo_obs := o; mo_final := f; mo_renamed := r |}.
 Notation Acc := Accept (only parsing). Notation Rej := Reject (only parsing).
 Notation RV := RaiseVerification (only parsing). Notation RO := RaiseOther (only parsing).
 Notation I := AdIdentity (only parsing). Notation Dr := AdDirect (only parsing). Notation X := AdNx (only parsing).
@@ -41,6 +42,7 @@ Notation T := true (only parsing). Notation F := false (only parsing).
 
 BUILTIN_NAMES = ['has_root', 'has_one_root', 'has_no_cycle', 'has_no_isolated_components',
                  'has_no_self_cycled_nodes', 'has_no_isolated_nodes']   # index = bK of the preamble
+MUTATIONS = {'drop': 'MDropLast', 'cut': 'MCutFirst', 'rename': 'MRename'}
 BUILTIN_CTORS = ['HasRoot', 'HasOneRoot', 'NoCycle', 'NoIsoComponents', 'NoSelfCycled', 'NoIsoNodes']
 ADAPTERS = {'I': IdentityAdapter, 'Dr': DirectAdapter, 'X': BaseNetworkxAdapter}
 OUTCOMES = ['RTrue', 'RFalse', 'RNone', 'RValueError', 'ROther']
@@ -200,7 +202,19 @@ def configs_for(rng, par, all_subsets, n_subsets, n_user, gid):
         out.append(('subset', rng.choice(ads), rng.random() < 0.5, rand_subset(rng)))
     for _ in range(n_user):
         out.append(('user', rng.choice(ads), rng.random() < 0.5, rand_user_config(rng, n_edges)))
-    return out
+    # how the verifier is obtained: GraphVerifier(rules, adapter, raise_on_failure) directly, or the verifier of
+    # GraphGenerationParams(adapter, rules_for_constraint=<list | tuple | argument omitted>) (flag off only)
+    full = []
+    for kind, ad, rf, rules in out:
+        via = 'direct'
+        if not rf:
+            via = rng.choice(['direct', 'direct', 'params-list', 'params-tuple'] +
+                             (['params-default', 'params-default'] if rules == 'DEFAULT' else []))
+        full.append((kind, ad, rf, rules, via))
+    # the boundary value: an explicitly EMPTY rule collection
+    for via in (['params-list', 'params-tuple', 'direct'] if all_subsets else [['params-list', 'params-tuple'][gid % 2]]):
+        full.append(('no-rules', rng.choice(ads), False, [], via))
+    return full
 
 
 # ----------------------------------------------------------------------------------------
@@ -243,6 +257,37 @@ def count_edges(x):
     return len(x.get_edges())
 
 
+def mutate_arg(x, how):
+    """a rule 'working on its copy': drop the last node / cut the parents of the first node / rename all nodes
+    of the graph object the rule was handed (OptGraph or networkx.DiGraph)"""
+    if isinstance(x, nx.DiGraph):
+        nodes = list(x.nodes)
+        if not nodes:
+            return
+        if how == 'drop':
+            x.remove_node(nodes[-1])
+        elif how == 'cut':
+            x.remove_edges_from(list(x.in_edges(nodes[0])))
+        else:
+            for u in nodes:
+                x.nodes[u]['name'] = 'renamed'
+        return
+    nodes = x.nodes
+    if not nodes:
+        return
+    if how == 'drop':
+        last = nodes[-1]
+        for n in nodes:
+            if last in n.nodes_from:
+                n.nodes_from.remove(last)
+        nodes.remove(last)
+    elif how == 'cut':
+        nodes[0].nodes_from = []
+    else:
+        for n in nodes:
+            n.content['name'] = 'renamed'
+
+
 def make_user_rule(idx, native, behaviour, log, cur, form='function'):
     """cur[0] = the graph being verified (a verifier instance may be used for several graphs)"""
     def body(x):
@@ -254,6 +299,9 @@ def make_user_rule(idx, native, behaviour, log, cur, form='function'):
             # first adapts its argument back to an optimisation graph
             inner = GraphVerifier([builtin(i) for i in behaviour[1]], raise_on_failure=True)
             return inner(adapter_of('X').adapt(x) if isinstance(x, nx.DiGraph) else x)
+        if behaviour[0] == 'mutate':
+            mutate_arg(x, behaviour[1])
+            return _emit(behaviour[2], idx)
         if behaviour[0] == 'nodes':
             size = x.number_of_nodes() if isinstance(x, nx.DiGraph) else x.length
         else:
@@ -297,7 +345,7 @@ class Session:
     """ONE GraphVerifier instance (one adapter instance, one list of rule objects) that can be called on
     several graphs; close() unregisters the native user rules"""
 
-    def __init__(self, ad, raise_flag, rules, fresh_adapter=False):
+    def __init__(self, ad, raise_flag, rules, fresh_adapter=False, via='direct'):
         self.log, self.made, self.cur = [], [], [None]
         if rules == 'DEFAULT':
             real = vr.DEFAULT_DAG_RULES
@@ -311,7 +359,19 @@ class Session:
                     self.made.append(f)
                     real.append(f)
         adapter = ADAPTERS[ad]() if fresh_adapter else adapter_of(ad)
-        self.verifier = GraphVerifier(real, adapter=adapter, raise_on_failure=raise_flag)
+        if via == 'direct':
+            self.verifier = GraphVerifier(real, adapter=adapter, raise_on_failure=raise_flag)
+        else:
+            # the standard way to configure the verifier of an optimiser
+            from golem.core.optimisers.optimizer import GraphGenerationParams
+            assert not raise_flag, 'GraphGenerationParams builds its verifier without raise_on_failure'
+            if via == 'params-default':
+                assert rules == 'DEFAULT'
+                params = GraphGenerationParams(adapter=adapter)
+            else:
+                params = GraphGenerationParams(adapter=adapter,
+                                               rules_for_constraint=list(real) if via == 'params-list' else tuple(real))
+            self.verifier = params.verifier
 
     def call(self, graph):
         """returns {'verdict': ..., 'calls': [[idx, arg description]]} for this call"""
@@ -336,9 +396,9 @@ class Session:
             reg.unregister_native(f)
 
 
-def observe(graph, ad, raise_flag, rules):
+def observe(graph, ad, raise_flag, rules, via='direct'):
     """a fresh GraphVerifier called once"""
-    sess = Session(ad, raise_flag, rules)
+    sess = Session(ad, raise_flag, rules, via=via)
     try:
         return sess.call(graph)
     finally:
@@ -369,6 +429,8 @@ def c_behaviour(b):
         return '(UConst %s)' % c_outcome(b[1])
     if b[0] == 'nested':
         return '(UNested [%s])' % ';'.join('B%s' % BUILTIN_CTORS[i] for i in b[1])
+    if b[0] == 'mutate':
+        return '(UMutate %s %s)' % (MUTATIONS[b[1]], c_outcome(b[2]))
     if b[0] == 'nodes':
         return '(UNodesLe %d %s)' % (b[1], c_outcome(b[2]))
     return '(UEdgesLe %d %s)' % (b[1], c_outcome(b[2]))
@@ -402,9 +464,9 @@ def do_graph(seed, par, gid, all_subsets, n_subsets, n_user):
     rng = graph_rng(seed, gid)
     g = build(par)
     runs, texts = [], []
-    for kind, ad, rf, rules in configs_for(rng, par, all_subsets, n_subsets, n_user, gid):
-        o = observe(g, ad, rf, rules)
-        runs.append({'kind': kind, 'adapter': ad, 'raise': rf, 'rules': rules, 'observed': o})
+    for kind, ad, rf, rules, via in configs_for(rng, par, all_subsets, n_subsets, n_user, gid):
+        o = observe(g, ad, rf, rules, via)
+        runs.append({'kind': kind, 'adapter': ad, 'raise': rf, 'rules': rules, 'via': via, 'observed': o})
         texts.append(c_run(ad, rf, rules, o))
     if structure(g) != [list(p) for p in par]:
         raise RuntimeError('verification changed the graph %r into %r' % (par, structure(g)))
@@ -417,11 +479,11 @@ def stats_of(par, runs, acc):
     gkey = repr(par)
     for r in runs:
         acc['n'] += 1
-        nontrivial = n >= 2 and (r['rules'] == 'DEFAULT' or len(r['rules']) > 0)
+        nontrivial = n >= 2 and (r['rules'] == 'DEFAULT' or len(r['rules']) > 0 or r.get('via', 'direct') != 'direct')
         if nontrivial:
-            key = repr((gkey, r['adapter'], r['raise'], r['rules']))
+            key = repr((gkey, r['adapter'], r['raise'], r['rules'], r.get('via', 'direct')))
             acc['keys'].add(hashlib.sha1(key.encode()).hexdigest()[:16])
-        facts = [('nodes', n), ('config', r['kind']), ('adapter', r['adapter']),
+        facts = [('nodes', n), ('config', r['kind']), ('adapter', r['adapter']), ('verifier_from', r.get('via', 'direct')),
                  ('raise_on_failure', r['raise']), ('verdict', r['observed']['verdict'])]
         if r['rules'] != 'DEFAULT':
             for q in r['rules']:
@@ -495,7 +557,7 @@ def evaluate(ctx, group, items, shard):
     hit = set()
     for (par, r), (ag, ho) in zip(owners, rr):
         case = {'graph': par, 'adapter': r['adapter'], 'raise_on_failure': r['raise'], 'rules': r['rules'],
-                'observed': r['observed']}
+                'via': r.get('via', 'direct'), 'observed': r['observed']}
         if not ho:
             hit.add(repr(par))
             ctx.violate(group, case, 'verdict / rule argument contradicts the structural conditions of the '
@@ -676,6 +738,125 @@ def sequence_canary(ctx):
         ctx.canaries_caught += 1
 
 
+# ----------------------------------------------------------------------------------------
+# rules that modify the graph they are given; the same graph verified twice
+# ----------------------------------------------------------------------------------------
+MUT_FN = 'check_mut'
+MUT_TY = 'mcase'
+
+
+def mutation_case(rng, par):
+    """rules = [0-2 built-ins] + [a rule that modifies its argument and answers] + [1-3 further rules]"""
+    n_edges = sum(len(q) for q in par)
+    rules = [['b', i] for i in rng.sample(range(6), rng.randint(0, 2))]
+    ret = rng.choice(['RTrue', 'RTrue', 'RTrue', 'RNone', 'RFalse', 'RValueError'])
+    rules.append(['u', rng.random() < 0.35, ['mutate', rng.choice(['drop', 'drop', 'cut', 'rename']), ret],
+                  rng.choice(FORMS)])
+    for _ in range(rng.randint(1, 3)):
+        x = rng.random()
+        if x < 0.5:
+            rules.append(['b', rng.randrange(6)])
+        elif x < 0.7:
+            rules.append(['u', rng.random() < 0.4, ['nodes', max(0, len(par) - rng.choice([0, 1])), rng.choice(FAILS)],
+                          rng.choice(FORMS)])
+        elif x < 0.8:
+            rules.append(['u', rng.random() < 0.4, ['edges', max(0, n_edges - rng.choice([0, 1])), rng.choice(FAILS)],
+                          rng.choice(FORMS)])
+        elif x < 0.9:
+            rules.append(['u', rng.random() < 0.4, ['nested', rng.sample(range(6), 2)], rng.choice(FORMS)])
+        else:
+            rules.append(['u', rng.random() < 0.35, ['mutate', rng.choice(['drop', 'cut', 'rename']), 'RTrue'],
+                          rng.choice(FORMS)])
+    rf = rng.random() < 0.3
+    return {'kind': 'mutating', 'graph': par, 'adapter': rng.choice(['I', 'Dr', 'Dr', 'X']), 'raise_on_failure': rf,
+            'rules': rules, 'via': 'direct' if rf else rng.choice(['direct', 'params-list', 'params-tuple'])}
+
+
+def crafted_mutation_cases():
+    chain = [[1], [2], []]           # 2 -> 1 -> 0 : accepted by the default rules
+    fork = [[1, 2], [], []]
+    out = []
+    for ad in ('I', 'Dr', 'X'):
+        for native in (False, True):
+            for how in ('drop', 'cut', 'rename'):
+                for g in (chain, fork):
+                    out.append({'kind': 'mutating', 'graph': g, 'adapter': ad, 'raise_on_failure': False, 'via': 'direct',
+                                'rules': [['u', native, ['mutate', how, 'RTrue'], 'function'], ['b', 0], ['b', 5], ['b', 3],
+                                          ['u', False, ['nodes', 3, 'RFalse'], 'object']]})
+    return out
+
+
+def protected(case):
+    return all(not (r[0] == 'u' and r[2][0] == 'mutate' and (r[1] or case['adapter'] == 'I'))
+               for r in case['rules'])
+
+
+def observe_mutation(case, calls=2):
+    """a fresh graph, ONE verifier, the same graph object verified `calls` times; after each call the structure of
+    the verified graph and whether one of its nodes was renamed"""
+    g = build(case['graph'])
+    sess = Session(case['adapter'], case['raise_on_failure'], case['rules'], fresh_adapter=True,
+                   via=case.get('via', 'direct'))
+    obs = []
+    try:
+        for _ in range(calls):
+            o = sess.call(g)
+            o['final'] = structure(g)
+            o['renamed'] = any(n.content.get('name') == 'renamed' for n in g.nodes)
+            obs.append(o)
+    finally:
+        sess.close()
+    return obs
+
+
+def c_mut(case, obs):
+    return '(%s, %s, %s, %s,\n [%s])' % (
+        c_dg(case['graph']), case['adapter'], 'T' if case['raise_on_failure'] else 'F', c_rules(case['rules']),
+        ';\n  '.join('M (O %s [%s]) %s %s' % (o['verdict'], ';'.join('(%d,%s)' % (c[0], c_arg(c[1])) for c in o['calls']),
+                                             c_dg(o['final']), 'T' if o['renamed'] else 'F') for o in obs))
+
+
+def run_mutations(ctx, group, cases):
+    texts, metas = [], []
+    for case in cases:
+        obs = observe_mutation(case)
+        texts.append(c_mut(case, obs))
+        metas.append((case, obs))
+    res = ctx.coq_cases(group, ['Graph.QueriesSpec', 'Graph.Rules'], MUT_FN, texts, 2, shard=400, case_ty=MUT_TY,
+                        preamble=PREAMBLE)
+    for (case, obs), (ag, ho) in zip(metas, res):
+        prot = protected(case)
+        mut = next(r for r in case['rules'] if r[0] == 'u' and r[2][0] == 'mutate')
+        key = repr((case['graph'], case['adapter'], case['raise_on_failure'], case['rules'], case.get('via')))
+        for i, o in enumerate(obs):
+            ctx.count(group, key=(key, i), nontrivial=len(case['graph']) >= 2, call=i, verdict=o['verdict'],
+                      adapter=case['adapter'], modifying_rule='%s %s' % ('native' if mut[1] else 'domain', mut[2][1]),
+                      rule_gets_own_copy=prot, verified_graph_changed=o['final'] != case['graph'] or o['renamed'],
+                      verifier_from=case.get('via', 'direct'))
+        full = dict(case)
+        full['observed'] = obs
+        if not ho:
+            ctx.violate(group, full, 'a domain rule that modifies the restored graph it was given changed the verified graph '
+                                     'or the verdict (every modifying rule here works under a copying adapter)')
+        if not ag:
+            ctx.disagree(group, full, 'model (graph state threaded through the rule loop) and implementation differ')
+    return metas
+
+
+def mutation_canary(ctx):
+    # DirectAdapter, domain rule drops a node of "its copy", observed: the verified graph lost the node and the run
+    # was rejected - what a shallow restore would do; must be flagged
+    case = {'kind': 'mutating', 'graph': [[1], [2], []], 'adapter': 'Dr', 'raise_on_failure': False, 'via': 'direct',
+            'rules': [['u', False, ['mutate', 'drop', 'RTrue'], 'function'], ['u', False, ['nodes', 2, 'RFalse'], 'function']]}
+    obs = observe_mutation(case)
+    obs[0]['final'] = [[1], []]
+    ctx.canaries += 1
+    res = ctx.coq_cases('canary', ['Graph.QueriesSpec', 'Graph.Rules'], MUT_FN, [c_mut(case, obs)], 2, case_ty=MUT_TY,
+                        preamble=PREAMBLE)
+    if res[0] == (False, False):
+        ctx.canaries_caught += 1
+
+
 def canary(ctx):
     # a self-loop "accepted" by has_no_cycle: Coq must flag both agree and holds_b
     text = c_case([[0]], ['R I F [b2] Acc []'])
@@ -738,6 +919,19 @@ def run(ctx):
     ctx.sample({'sequence': metas[0][0]['sequence'], 'adapter': metas[0][0]['adapter'], 'rules': metas[0][0]['rules'],
                 'observed': metas[0][1]})
     sequence_canary(ctx)
+    # ---- rules that modify their argument, the same graph verified twice by one verifier
+    cases = crafted_mutation_cases()
+    for n in range(0, 4):
+        for code in range(1 << (n * n)):
+            r = graph_rng(seed, (7 << 20) + (n << 10) + code)
+            cases += [mutation_case(r, decode(n, code)) for _ in range(3 if n == 3 else 6)]
+    for k in range(ctx.budget(500, 4000)):
+        cases.append(mutation_case(ctx.rng, random_graph(ctx.rng)))
+    metas = run_mutations(ctx, 'modifying-rules', cases)
+    ctx.set_exhaustive('modifying-rules', False)
+    ctx.sample({'graph': metas[40][0]['graph'], 'adapter': metas[40][0]['adapter'], 'rules': metas[40][0]['rules'],
+                'observed': metas[40][1]})
+    mutation_canary(ctx)
     # ---- structured random graphs on 4..7 nodes
     items = []
     acc = new_acc()
@@ -793,6 +987,11 @@ def replay(ctx, payload):
         v = payload.get('violation') or payload.get('first_disagreement') or payload
         case = v.get('case') if isinstance(v, dict) else None
         todo = [case] if case and 'rules' in case else []
+    mut_todo = [c for c in todo if c and c.get('kind') == 'mutating']
+    todo = [c for c in todo if c and c.get('kind') != 'mutating']
+    if mut_todo:
+        run_mutations(ctx, 'replay-modifying', [{k: c[k] for k in ('kind', 'graph', 'adapter', 'raise_on_failure', 'rules', 'via')
+                                                 if k in c} for c in mut_todo])
     seq_todo = [c for c in todo if c and 'sequence' in c]
     todo = [c for c in todo if c and 'sequence' not in c]
     if seq_todo:
@@ -801,7 +1000,7 @@ def replay(ctx, payload):
     texts, done = [], []
     for case in todo:
         par = case['graph']
-        o = observe(build(par), case['adapter'], case['raise_on_failure'], case['rules'])
+        o = observe(build(par), case['adapter'], case['raise_on_failure'], case['rules'], case.get('via', 'direct'))
         texts.append(c_case(par, [c_run(case['adapter'], case['raise_on_failure'], case['rules'], o)]))
         c = dict(case)
         c['observed'] = o
